@@ -47,6 +47,10 @@ const (
 
 	// RawSocket header ID.
 	magic = 0x7f
+
+	// Time Close waits for a frame that is being written before it closes the
+	// socket under the writer.
+	closeWriteTimeout = 5 * time.Second
 )
 
 // ConnectRawSocketPeer creates a new rawSocketPeer with the specified config,
@@ -188,16 +192,22 @@ func (rs *rawSocketPeer) Close() {
 	// wr channel in case there are incoming messages during close.
 	rs.cancelSender()
 
-	// Close the socket before waiting for sendHandler: if the other side has
-	// stopped reading, sendHandler is blocked in a write that only closing
-	// the socket ends. Ignore errors since socket may have been closed by
-	// other side first in response to a goodbye message.
-	_ = rs.conn.Close()
-
-	<-rs.writerDone
+	// Give sendHandler a moment to finish the frame it is writing. If the
+	// other side has stopped reading, sendHandler is blocked in a write that
+	// only closing the socket ends.
+	select {
+	case <-rs.writerDone:
+	case <-time.After(closeWriteTimeout):
+		_ = rs.conn.Close()
+		<-rs.writerDone
+	}
 	close(rs.wr)
 	for range rs.wr {
 	}
+
+	// Ignore errors since socket may have been closed by other side first in
+	// response to a goodbye message.
+	_ = rs.conn.Close()
 }
 
 // sendHandler pulls messages from the write channel, and pushes them to the
